@@ -950,6 +950,8 @@ STRATA = {
     "A2": ("sys", 2, True),
     "A2f": ("sys", 2, False),
     "A3": ("sys", 3, True),
+    "A3f": ("sys", 3, False),      # sampled (seed-derived arithmetic progression), never complete in one batch
+    "A4": ("sys", 4, True),        # sampled
 }
 
 
@@ -1161,7 +1163,8 @@ PLANS = {
         "wall_cap_s": 900,
     },
     "thorough": {
-        "strata": [("A1", 10**9), ("A2f", 10**9), ("A3", 10**9), ("B:fault_free", 150000),
+        "strata": [("A1", 10**9), ("A2f", 10**9), ("A3", 10**9), ("A3f", 1500000), ("A4", 1500000),
+                   ("B:fault_free", 150000),
                    ("B:natural", 250000), ("B:injected", 250000), ("B:mixed", 150000), ("M:natural", 200000),
                    ("M:fault_free", 100000), ("R", 200000)],
         "opts": {"pristine": True, "pristine_rate": 8, "selftest_n": 100},
